@@ -1,9 +1,13 @@
 package main
 
 import (
+	"bytes"
+	"strings"
+
 	"encoding/json"
 	"errors"
 	"fmt"
+	"github.com/feichai0017/NoKV/vfs"
 	"math/rand"
 	"os"
 	"sort"
@@ -184,13 +188,143 @@ func execLinz(c *corr.Ctx, db *NoKV.DB, d linzDesc) corr.Case {
 	return corr.Case{Coq: "Cs " + corr.List(terms), Nontrivial: nok > 0, Desc: d}
 }
 
+// ---- fault-injected batches ----
+
+type linzFaultDesc struct {
+	Small int  `json:"small"` // small writes that join the batch before the failing one
+	After int  `json:"after"` // small writes that join the batch after the failing one
+	Big   bool `json:"big"`   // a 300 KiB write whose WAL record needs a file write, which fails
+}
+
+// execLinzFault: a fresh DB over a fault-injecting file system; several plain writes on distinct keys join
+// one commit batch (coalescing window); the WAL file write of the large one fails. Every write reports its
+// own outcome; afterwards every key is read. The history (call/return stamps as in execLinz) must be
+// linearizable with failed writes as no-ops: a write that returned an error must not be readable, an
+// acknowledged one must be.
+func execLinzFault(c *corr.Ctx, d linzFaultDesc) corr.Case {
+	dir := scratchDir(c)
+	defer os.RemoveAll(dir)
+	var armed atomic.Bool
+	injected := errors.New("verif: injected WAL write error")
+	fs := vfs.NewFaultFS(vfs.OSFS{}, func(op vfs.Op, path string) error {
+		if armed.Load() && op == vfs.OpFileWrite && strings.HasSuffix(path, ".wal") {
+			return injected
+		}
+		return nil
+	})
+	opt := &NoKV.Options{WorkDir: dir, FS: fs, SSTableMaxSz: 8 << 20, MemTableSize: 8 << 20, ValueLogFileSize: 16 << 20,
+		ValueThreshold: 1 << 20, ValueLogBucketCount: 1, MaxBatchCount: 100, MaxBatchSize: 1 << 20,
+		WriteBatchWait: 300 * time.Millisecond}
+	db := NoKV.Open(opt)
+	defer func() {
+		armed.Store(false)
+		watchdog(func() { defer func() { _ = recover() }(); db.Close() })
+	}()
+	var clock atomic.Uint64
+	type rec struct {
+		term string
+		call uint64
+	}
+	var mu sync.Mutex
+	var recs []rec
+	var wg sync.WaitGroup
+	nfail, nok, npanic := 0, 0, 0
+	write := func(t int, key string, val []byte) {
+		defer wg.Done()
+		call := clock.Add(1)
+		var err error
+		panicked := false
+		func() {
+			defer func() {
+				if r := recover(); r != nil {
+					panicked = true
+				}
+			}()
+			err = db.Set([]byte(key), val)
+		}()
+		ret := clock.Add(1)
+		shown := val
+		if len(shown) > 24 {
+			shown = shown[:24]
+		}
+		mu.Lock()
+		defer mu.Unlock()
+		ok := err == nil && !panicked
+		if ok {
+			nok++
+		} else {
+			nfail++
+		}
+		recs = append(recs, rec{fmt.Sprintf("W %d %d %d %s (V %s) %s", t, call, ret, corr.Hex([]byte(key)), corr.Hex(shown), corr.Bool(ok)), call})
+		if panicked {
+			// a write that neither returned nil nor an error: recorded as a read of a value nobody wrote
+			npanic++
+			recs = append(recs, rec{fmt.Sprintf("R %d %d %d %s (V \"ff\")", t, ret, clock.Add(1), corr.Hex([]byte(key))), ret})
+		}
+	}
+	var keys []string
+	t := 0
+	start := func(key string, val []byte) {
+		keys = append(keys, key)
+		wg.Add(1)
+		go write(t, key, val)
+		t++
+	}
+	for i := 0; i < d.Small; i++ {
+		start(fmt.Sprintf("f.s%d", i), []byte(fmt.Sprintf("s%d", i)))
+	}
+	time.Sleep(60 * time.Millisecond) // the worker has popped the first request and waits for company
+	if d.Big {
+		armed.Store(true)
+		big := bytes.Repeat([]byte{'b'}, 300<<10)
+		copy(big, "big.")
+		start("f.big", big)
+		time.Sleep(20 * time.Millisecond)
+	}
+	for i := 0; i < d.After; i++ {
+		start(fmt.Sprintf("f.a%d", i), []byte(fmt.Sprintf("a%d", i)))
+	}
+	if !watchdog(wg.Wait) {
+		c.Count("fault_writes_hung")
+	}
+	armed.Store(false)
+	for _, key := range keys {
+		call := clock.Add(1)
+		e, err := db.Get([]byte(key))
+		ret := clock.Add(1)
+		res := "None"
+		if err == nil && e != nil {
+			v := e.Value
+			if len(v) > 24 {
+				v = v[:24]
+			}
+			res = "(V " + corr.Hex(v) + ")"
+		} else if err != nil && !errors.Is(err, utils.ErrKeyNotFound) {
+			res = "(V \"fe\")"
+		}
+		recs = append(recs, rec{fmt.Sprintf("R %d %d %d %s %s", t, call, ret, corr.Hex([]byte(key)), res), call})
+	}
+	sort.Slice(recs, func(i, j int) bool { return recs[i].call < recs[j].call })
+	var terms []string
+	for _, r := range recs {
+		terms = append(terms, r.term)
+	}
+	c.CountN("fault_write_ok", nok)
+	c.CountN("fault_write_failed", nfail)
+	c.CountN("fault_write_panicked", npanic)
+	c.Count("fault_histories")
+	return corr.Case{Coq: "Cs " + corr.List(terms), Nontrivial: nfail > 0 && nok > 0, Desc: map[string]any{"fault": d, "history": terms}}
+}
+
 func runLinz(c *corr.Ctx) error {
 	c.Meta("run_module", "RunLinz")
 	c.Meta("exhaustive", false)
 	c.Meta("rule", "3-4 goroutines x 4-6 operations (Set with unique values, Del, Get) on 2 fresh keys per history against one real DB "+
 		"(commit worker batching on, WriteHotKeyLimit=6 so that repeated writes are rejected, 900-byte values rejected by MaxBatchSize=512, "+
 		"a fifth goroutine toggling the L0 write throttle in a third of the histories); call/return stamped by a global atomic counter; "+
-		"the complete history must satisfy lin_check. non-trivial = at least one write succeeded; distinct by Gallina term")
+		"the complete history must satisfy lin_check. Plus fault-injected batches on a fresh DB over a FaultFS: 1-3 small writes and "+
+		"a 300 KiB write join one commit batch (WriteBatchWait 300 ms), the WAL file write of the large record fails, every key is read "+
+		"afterwards: a write that returned an error must be linearizable as no effect, an acknowledged one must be visible. non-trivial = at least one write succeeded; distinct by Gallina term")
 	dir := scratchDir(c)
 	defer os.RemoveAll(dir)
 	db := openLinzDB(dir)
@@ -215,6 +349,11 @@ func runLinz(c *corr.Ctx) error {
 	n := c.Scale(300, 20000)
 	for i := 0; i < n; i++ {
 		c.Emit(execLinz(c, db, genLinz(c.Rng)))
+	}
+	// shared commit batches in which the WAL write of one request fails
+	for i, m := 0, c.Scale(12, 200); i < m; i++ {
+		d := linzFaultDesc{Small: 1 + c.Rng.Intn(3), After: c.Rng.Intn(2), Big: c.Rng.Intn(6) != 0}
+		c.Emit(execLinzFault(c, d))
 	}
 	return nil
 }
